@@ -1,19 +1,46 @@
-"""C08 -- the tree stays coherent (sequential histories: shape equality with the model whose
-well-formedness is proved; get / scan agreement through the Spec oracle)"""
+"""C08 -- the tree stays coherent.  Sequential histories: shape equality with the model whose well-formedness is
+proved (C08_wf_reachable); get / scan agreement through the Spec oracle.  Concurrent-quiescence half: once concurrent
+writers have all returned, point lookups, the full scan and the lock / dirty bits of every node must be coherent
+(no duplicate or misplaced entry, every key found by get iff listed by the scan, nothing left locked) -- explored on
+the real library under the scheduler for races that change the structure (same-key inserts, update vs split, unlink,
+collapse)."""
+import json
+
 from . import common as C
+from . import conc
 from . import seq
 
 CATS = ["dump", "res"]
 GEN = dict(scans=True, dumps=True)
+WANT = ("coherent", "deadlock", "null")
+RACES = ["uput-uput-single", "uput-uput-full", "uput-uput-sublayer", "uput-uput-newlayer", "put-put-rem-single",
+         "put-put-rem-full", "put-put-rem-sublayer", "put-put-rem-newlayer", "update-vs-split-43", "update-vs-split-51",
+         "update-vs-unlink", "rem-rem", "rem-put-get", "get-vs-rem-put-other", "rem-last-vs-rem-first"]
+
+
+def conc_part(res):
+    conc.conc_phase(res, "c08", WANT, RACES, (), False, 1600, ("preempt1",), 1, gen=conc.catalogue_gen,
+                    label="quiescent_coherence_after_races")
+    conc.conc_phase(res, "c08", WANT, ["collapse", "full", "two"], ("put", "rem", "uput"), False,
+                    150 if res.tier == "quick" else 1200, ("preempt1",) if res.tier == "quick" else ("preempt1", "race2", "pct"),
+                    2 if res.tier == "quick" else 8,
+                    gen=lambda rng, shape: conc.gen_collapse(rng, shape) if shape == "collapse" else
+                    conc.gen_scenario(rng, shape, kinds=("put", "rem", "uput"), nthreads=rng.choice([2, 3]), ops_per_thread=2),
+                    label="quiescent_coherence_random")
 
 
 def run(tier, seed):
     res = C.Result("C08", tier, seed, level="proof")
     res.assumptions = ["parent / prev / next pointers of the real tree are compared with the ones determined by the model's shape "
                        "(dump lines: parent=, pok=, prev=, next=)",
-                       "the concurrent-quiescence half is explored under C01/C04 (coherent + lockbits oracles), not proved"]
-    return seq.run_seq_property(res, "c08", CATS, 40, 400, gen_kwargs=GEN, extra_scripts=seq.gen_split_boundary_scripts)
+                       "the concurrent-quiescence half is explored (coherent + lockbits oracles at quiescence), not proved"]
+    return seq.run_seq_property(res, "c08", CATS, 40, 400, gen_kwargs=GEN, extra_scripts=seq.gen_split_boundary_scripts,
+                                post=conc_part)
 
 
 def replay(path, tier, seed):
+    r = json.load(open(path))
+    if str(r.get("kind", "")).startswith("conc-"):
+        print(json.dumps(r, indent=1)[:3000])
+        return 1
     return seq.replay_seq("C08", "c08", path, CATS)
